@@ -70,6 +70,7 @@ type LockAn struct {
 	results map[*ssa.Function]*FnLocks
 	entry   map[*ssa.Function]LockSet
 	inprog  map[*ssa.Function]bool
+	inrel   map[*ssa.Function]bool
 }
 
 // FnLocks is the per-function result.
@@ -87,7 +88,7 @@ type FnLocks struct {
 
 func NewLockAn(p *Prog, rel string) *LockAn {
 	la := &LockAn{P: p, Pkg: p.Pkg(rel), Funcs: p.SrcFuncs(rel), alias: map[string]string{},
-		results: map[*ssa.Function]*FnLocks{}, entry: map[*ssa.Function]LockSet{}, inprog: map[*ssa.Function]bool{}}
+		results: map[*ssa.Function]*FnLocks{}, entry: map[*ssa.Function]LockSet{}, inprog: map[*ssa.Function]bool{}, inrel: map[*ssa.Function]bool{}}
 	la.computeAliases()
 	return la
 }
@@ -362,11 +363,11 @@ func (la *LockAn) Analyze(fn *ssa.Function, entry LockSet) *FnLocks {
 // without having locked them before on that path — a hand-off receiver.
 func (la *LockAn) releasesOf(fn *ssa.Function) map[string]bool {
 	out := map[string]bool{}
-	if la.inprog[fn] {
+	if la.inrel[fn] {
 		return out
 	}
-	la.inprog[fn] = true
-	defer delete(la.inprog, fn)
+	la.inrel[fn] = true
+	defer delete(la.inrel, fn)
 	r := la.Analyze(fn, LockSet{})
 	AllInstrs(fn, func(ins ssa.Instruction) {
 		c, ok := ins.(ssa.CallInstruction)
